@@ -193,6 +193,21 @@ func (x *bitCtx) checkLeafIter(fn *ssa.Function, reverse bool) {
 					}
 				}
 				valOK := (lastIdx != nil && lf(e.Val).equal(lf(lastIdx).add(addForm, 1))) || (nextIdx != nil && lf(e.Val).equal(lf(nextIdx).add(addForm, 1)))
+				// sparse form without the mask table: the member is TrailingZeros64(w) of the current working word and the
+				// step drops the lowest set bit (w &= w-1, checked with the loop transition below)
+				if !valOK {
+					for _, y := range t.Events[:i] {
+						if y.Kind == EvCall && y.callName() == "math/bits.TrailingZeros64" && y.Res != nil && lf(e.Val).equal(lf(y.Res).add(addForm, 1)) {
+							valOK = true
+							sawSparseDir = true
+							nIdx++
+							if reverse && okDir {
+								okDir = false
+								c.violated("C08.direction", name+" sparse", e.Pos, "a descending iterator picks the lowest set bit (TrailingZeros64): members come out in ascending order", c.witness(t, i)...)
+							}
+						}
+					}
+				}
 				if !valOK {
 					if okGuard {
 						okGuard = false
@@ -371,6 +386,23 @@ func (x *bitCtx) checkLeafIter(fn *ssa.Function, reverse bool) {
 							}
 						} else if ps.Next.Kind == KBin && ps.Next.Op == token.AND_NOT {
 							good = ps.Next.Args[0].Key() == ps.Cur.Key()
+						}
+						// w & (w-1) drops the lowest set bit: exactly the member written when that member is
+						// TrailingZeros64 of the same w (ascending iterators only)
+						if !good && !reverse && ps.Next.Kind == KBin && ps.Next.Op == token.AND {
+							a, b := ps.Next.Args[0], ps.Next.Args[1]
+							if a.Key() != ps.Cur.Key() {
+								a, b = b, a
+							}
+							if a.Key() == ps.Cur.Key() && b.Kind == KBin && b.Op == token.SUB && b.Args[0].Key() == ps.Cur.Key() && isIntConst(b.Args[1], 1) {
+								for _, y := range t.Events[genStart:] {
+									if y.Kind == EvCall && y.callName() == "math/bits.TrailingZeros64" && len(y.Args) == 1 && stripWidening(y.Args[0]).strip().Key() == ps.Cur.Key() && store != nil {
+										if lf(store.Val).equal(lf(y.Res).add(lf(&Sym{Kind: KParam, Ref: add, Typ: add.Type()}), 1)) {
+											good = true
+										}
+									}
+								}
+							}
 						}
 						if !good {
 							fail("an iteration that writes a member does not clear exactly that member's bit from the working word (the same member is written again, or others are lost)")
